@@ -591,6 +591,17 @@ impl NameResolution {
                 let traits = traits
                     .iter()
                     .map(|path| {
+                        // A bound names a trait like any other position of the file does:
+                        // through the file's own imports.
+                        let qualified: hir::QualifiedPath = path.into();
+                        if let Some(package) = &qualified.package
+                            && !ctx.package_allowed(package.as_str())
+                        {
+                            self.error(format!(
+                                "package {} not imported in package {}",
+                                package.0, ctx.current_package
+                            ));
+                        }
                         hir::Path::new(path.segments().iter().map(hir::PathSegment::from).collect())
                     })
                     .collect::<Vec<_>>();
